@@ -143,6 +143,9 @@ func (h *hist) after(a *hx.Node, sigPoolRan bool) {
 	if a.Tracked {
 		h.actions["ff-model-compared-actions"]++ // a reset node's observables were printed for the model comparison
 	}
+	for _, nd := range h.nodes {
+		h.roundDivergence(nd) // before any block comparison (see fastforward.go)
+	}
 	h.oracles(a, before)
 	if !(h.uncompared0 && a.ID == 0) {
 		// (on the small-cache persistent node a consensus pass can fail below the supported cache window,
